@@ -45,6 +45,10 @@ REG = {
    text="coq/Properties/C08.v over Model/Engine.v: with --dry-run the destination after the run equals the destination before, for every source listing, destination and flag set; the plan does not depend on the flag; the dry run's event list is exactly the plan (create/update/skip/delete incl. the deletion plan) with no errors. The side effects on sy's own state files that happen before the engine's dry-run guard are not in Engine.v: they are checked on the real binary and are known findings C08-KF1..KF4 (checksum DB created, cache file cleared, corrupt resume state deleted, bisync DB created). Tie: twin worlds (dry run vs real run) through the binary with recursive snapshots of source, destination and a private HOME, event multisets compared, dry run compared with Engine.run.",
    note="Partial: state-file side effects are validated by runs only (no model of main.rs option handling); bisync dry-run covered by snapshots only.",
    technique="Rocq proof (dry-run execution is the identity; plan independence) + twin-run binary correspondence"),
+ "C10": dict(
+   text="coq/Properties/C10.v over Model/Engine.v (with the repaired exit mapping of main.rs): whenever a planned operation did not complete the exit status is non-zero, for every error budget; exit status 0 implies the C01 postcondition (for destinations without unseen type conflicts); a failing task leaves the destination exactly as it was (containment); the two type-conflict shapes the planner does not see are refuted as theorems (C10_refuted_type_conflict_skip, C10_refuted_dir_stat_skip = known finding C10-KF1). Tie: C01 worlds with natural faults (directory where the source has a file -> EISDIR, file where the source has a directory with children -> ENOTDIR for every descendant) x error budgets through the real binary vs Engine.run; oracle: failure visible, unaffected files correct, exit 0 implies C01.",
+   note="Partial: only natural faults are injected in the registered quick check (EIO/ENOSPC/EACCES injection at the k-th system call needs the LD_PRELOAD shim; the sandbox runs as root so permission faults cannot arise naturally); verification failures (silent corruption under verifying modes) are not modelled.",
+   technique="Rocq proof (exit-status case analysis + corollary of the C01 invariant, refutation witnesses) + binary-level differential correspondence under faults"),
  "C11": dict(
    text="Theorems in coq/Properties/C11.v over a Gallina model of classifier.rs/resolver.rs/engine.rs/state.rs: for every pair of trees, every strategy, the first sync converges on every path outside the known class (equal size, different content) and loses no version except the loser a non-rename strategy names; the full statement is refuted by a vm_compute witness (C11_refuted_same_size = known finding C11-KF1). Tie: classify_changes/resolve_changes compared with the extracted model exhaustively over an ordered (size,mtime) domain, BisyncEngine::sync compared on edit/sync histories over real directories incl. state-DB rows; specification oracle (convergence, no silent loss) evaluated on the implementation's snapshots; failures count as known only inside a listed class and only while the implementation still equals the model of the pinned code.",
    note="Partial: convergence is proved for first syncs (empty state); with prior state the recorded rows are partial/stale (known findings C11-KF2, C12-KF1/KF2) and the statement is false. SQLite and fs::copy/rename are oracles.",
